@@ -50,7 +50,8 @@ func batchPool(r *hx.Rng, code uint64, nDIDs int, big bool) [][]*batchOp {
 		ids := newIDPool(r)
 		var patches []interface{}
 		if big {
-			patches = []interface{}{patchJSON(map[string]interface{}{"op": "add", "path": "/blob", "value": strings.Repeat("z", 1500)})}
+			// hardly compressible content: the files decompress to about 1.3 x their compressed size
+			patches = []interface{}{patchJSON(map[string]interface{}{"op": "add", "path": "/blob", "value": ref.B64(r.Bytes(1100))})}
 		} else {
 			patches = genPatches(r, 2, ids)
 		}
@@ -357,6 +358,49 @@ func checkC13(c *hx.Ctx) {
 		}
 		jobs = append(jobs, job{bigEnv, maxB, 100, "maximum-size"})
 	}
+	// realistic limits: every per-type file limit set to exactly the compressed size of the file the handler writes for this
+	// batch; the files decompress to more than that limit but less than limit x decompression factor -> must read back
+	{
+		var maxB []*batchOp
+		for d := range bigEnv.pool {
+			maxB = append(maxB, pick(bigEnv, d, types[d%4], 0))
+		}
+		tight := bigEnv.p
+		cas := hx.NewMemCAS()
+		v := hx.NewVersion(tight, hx.VersionOpts{CAS: cas})
+		q := make([]*operation.QueuedOperation, len(maxB))
+		for i, b := range maxB {
+			q[i] = b.queued()
+		}
+		if info, err := v.Handler.PrepareTxnFiles(q); err == nil {
+			size := map[string][2]int{}
+			for _, a := range info.Artifacts {
+				comp := cas.M[a.ID]
+				size[a.Desc] = [2]int{len(comp), len(gunzip(comp))}
+			}
+			mx := func(a, b int) int {
+				if a > b {
+					return a
+				}
+				return b
+			}
+			tight.MaxChunkFileSize = uint(size["chunk file"][0])
+			tight.MaxCoreIndexFileSize = uint(size["core index file"][0])
+			tight.MaxProvisionalIndexFileSize = uint(size["provisional index file"][0])
+			tight.MaxProofFileSize = uint(mx(size["core proof file"][0], size["provisional proof file"][0]))
+			tight.MaxMemoryDecompressionFactor = 3
+			okRatio := true
+			for _, sz := range size {
+				if sz[1] > sz[0]*3 {
+					okRatio = false
+				}
+			}
+			if okRatio && size["chunk file"][1] > size["chunk file"][0] {
+				jobs = append(jobs, job{env{tight, bigEnv.pool}, maxB, 100, "tight-file-limits"})
+				c.Set("tight_limits_chunk_compressed_vs_decompressed", size["chunk file"])
+			}
+		}
+	}
 	// random mixes
 	nRand := c.N(1500, 60000)
 	rr := c.Rng("random")
@@ -385,7 +429,7 @@ func checkC13(c *hx.Ctx) {
 	c.Sample(3, map[string]interface{}{"batch": ids(jobs[len(seqs)/2].batch), "tag": jobs[len(seqs)/2].tag})
 	c.Sample(3, map[string]interface{}{"batch": ids(jobs[len(jobs)-1].batch), "tag": "random"})
 	c.Set("exhaustive_type_sequences", len(seqs))
-	for _, t := range []string{"types-distinct-dids", "repeated-suffix", "expiring-at-450", "expiring-at-600", "update-only-max", "deactivate-only-max", "single", "maximum-size", "random", "six-operations-one-suffix"} {
+	for _, t := range []string{"types-distinct-dids", "repeated-suffix", "expiring-at-450", "expiring-at-600", "update-only-max", "deactivate-only-max", "single", "maximum-size", "tight-file-limits", "random", "six-operations-one-suffix"} {
 		c.Floor("ok:"+t, 1)
 	}
 	c.Floor("all_expired_batches", 1)
